@@ -250,6 +250,31 @@ pub fn ref_ros(c: &RosCase) -> Option<u64> {
             )
         }
         RosCase::ChainSummed { .. } => unreachable!(),
+        RosCase::ChainGeneral {
+            supply,
+            chain,
+            others,
+            limit,
+        } => {
+            let all: Vec<DynRbf> = chain.iter().map(|(a, c)| rbf(a, c)).collect();
+            let last = all.last().unwrap();
+            let h: Vec<DynRbf> = others.iter().map(|(a, c)| rbf(a, c)).collect();
+            let last_f = |x: u64| sn(last, x);
+            let prefix_f = |x: u64| -> u64 { all[..all.len() - 1].iter().map(|r| sn(r, x)).sum() };
+            let full_f = |x: u64| -> u64 { all.iter().map(|r| sn(r, x)).sum() };
+            let oth_f = |x: u64| -> u64 { h.iter().map(|r| sn(r, x)).sum() };
+            ecrts(
+                supply,
+                *limit,
+                &full_f,
+                &|x| full_f(x) + oth_f(x),
+                &|a, r| {
+                    let own_wcet = su(last.least_wcet_in_interval(d(a + r)));
+                    let iv = if r > own_wcet { a + r - own_wcet + 1 } else { a + 1 };
+                    last_f(a + 1) + prefix_f(iv) + oth_f(iv)
+                },
+            )
+        }
         RosCase::Sub {
             bw,
             supply,
